@@ -119,7 +119,7 @@ def spec_variants():
     return V
 
 
-STARTS = ["base", "directed-lights+group-goal", "ring-road", "goal-lanelets-unsorted", "custom-pm-trajectory", "pm-trajectory", "uncertain-states", "goal-lanelets-all", "defaults", "read-xml:base", "read-pb:base", "read-pb:custom-pm-trajectory",
+STARTS = ["base", "assigned:base", "directed-lights+group-goal", "ring-road", "goal-lanelets-unsorted", "custom-pm-trajectory", "pm-trajectory", "uncertain-states", "goal-lanelets-all", "defaults", "read-xml:base", "read-pb:base", "read-pb:custom-pm-trajectory",
           "file:test_reading_all.xml", "file:test_reading_intersection_traffic_sign.xml", "file:test_reading_pm_state.xml", "file:USA_Lanker-1_1_T-1.xml"]
 
 
@@ -130,6 +130,17 @@ def make_start(name, tmpdir):
         path = os.path.join(os.path.dirname(os.path.dirname(commonroad.__file__)), "tests", "test_scenarios", name[5:])
         from commonroad.common.file_reader import CommonRoadFileReader
         return CommonRoadFileReader(path).open()
+    if name.startswith("assigned:"):
+        # the obstacles have been assigned to the lanelets: every lanelet carries its registry of static and dynamic obstacles
+        sp_ = copy.deepcopy(spec_variants()[name[9:]])
+        # (+ a parked vehicle and a crossing vehicle that are on the successor lanelet 2 only)
+        sp_["obstacles"].append({"role": "static", "id": 37, "type": "PARKED_VEHICLE", "shape": ["rect", 4.0, 1.5, 0.0, 0.0, 0.0], "initial_state": spec.init_state(x=30.0, y=2.25, o=0.04, v=0.0)})
+        sp_["obstacles"].append({"role": "dynamic", "id": 38, "type": "CAR", "shape": ["rect", 4.0, 1.5, 0.0, 0.0, 0.0], "initial_state": spec.init_state(x=34.0, y=2.5, o=0.05, v=5.0),
+                                 "prediction": {"k": "trajectory", "t0": 1, "shape": ["rect", 4.0, 1.5, 0.0, 0.0, 0.0], "states": [speclib.ks(1, 35.0, 2.5, 0.05), speclib.ks(2, 36.0, 2.6, 0.05)]}})
+        sc, pps = spec.build(sp_)
+        from commonroad.prediction.prediction import SetBasedPrediction
+        sc.assign_obstacles_to_lanelets(obstacle_ids={o.obstacle_id for o in sc.static_obstacles + sc.dynamic_obstacles if not isinstance(getattr(o, "prediction", None), SetBasedPrediction)})
+        return sc, pps
     if name.startswith("read-"):
         fmt, v = name[5:].split(":")
         sc, pps = spec.build(spec_variants()[v])
